@@ -83,7 +83,7 @@ func checkC05(c ModelCase) (o Outcome) {
 // (the operator steps of these checks reach into the store or the live engine: the modes they know)
 var c06Modes = []app.Mode{{Kind: "long"}, {Kind: "long"}, {Kind: "persist", Backend: "mem"}}
 
-var c06Opts = GenOpts{MaxNodes: 4, MultiHalt: true, Flags: true, ReservedFl: true, EchoInput: true, NoEndNodes: true, Errors: true, RelCatch: true, PostCroak: true}
+var c06Opts = GenOpts{MaxNodes: 4, MultiHalt: true, Flags: true, ReservedFl: true, EchoInput: true, NoEndNodes: true, Errors: true, RelCatch: true, PostCroak: true, ResetEmpty: true}
 
 // clearTerminate is the operator step: code outside the VM clears TERMINATE.
 func clearTerminate(real *app.Session, m *model.Session) {
@@ -170,9 +170,9 @@ func genC06(t *rapid.T) ModelCase {
 
 func hooksFor(c ModelCase) *diffHooks {
 	if len(c.ClearTerminateAt) == 0 {
-		return &diffHooks{useDb: c.UseDb, usePo: c.UsePo}
+		return &diffHooks{useDb: c.UseDb, usePo: c.UsePo, prior: c.Prior}
 	}
-	return &diffHooks{useDb: c.UseDb, usePo: c.UsePo, beforeRequest: func(i int, real *app.Session, m *model.Session) {
+	return &diffHooks{useDb: c.UseDb, usePo: c.UsePo, prior: c.Prior, beforeRequest: func(i int, real *app.Session, m *model.Session) {
 		for _, at := range c.ClearTerminateAt {
 			if at == i && m.Terminated() {
 				clearTerminate(real, m)
